@@ -2,7 +2,7 @@
 no unvisited slot, the interact pipeline, nothing else reported, instrument-name = delivery-name."""
 import ast
 
-from ..astq import Facts, is_name, is_self_attr, returns_of
+from ..astq import Facts, expand, facts_of, is_name, is_self_attr, returns_of
 from ..cfg import CFG
 from ..core import AnalysisError, norm, walk_local
 from .. import pybinding
@@ -223,39 +223,49 @@ def run(repo, chk):
         chk.ob("R02.4", "interpret.Interactor.interact:single-sites", len(log) == 1 and len(trig) == 1 and not any(isinstance(a, (ast.For, ast.While)) for l in log + trig for a in _anc(l.stmt)),
                ia.where, "one log and one trigger per interaction (exactly one event per binding)")
     cs = repo.func("interpret.BaseAccumulator._call_with_snapshot")
-    t = norm(cs.node)
-    dc = [n for n in walk_local(cs.node) if isinstance(n, ast.DictComp)]
-    ok = len(dc) == 1 and isinstance(dc[0].value, ast.Call) and isinstance(dc[0].value.func, ast.Attribute) and dc[0].value.func.attr == "snapshot" \
-        and "self.build()" in norm(dc[0].generators[0].iter)
-    calls_fn = [c for c in ast.walk(cs.node) if isinstance(c, ast.Call) and is_name(c.func, "fn")]
-    arg_ok = all(c.args and is_name(c.args[0], "args") for c in calls_fn) and bool(calls_fn)
-    chk.ob("R02.4", "interpret.BaseAccumulator._call_with_snapshot:snapshots", ok and arg_ok, cs.where,
+    fnp = cs.node.args.args[2].arg if len(cs.node.args.args) > 2 else "fn"
+    calls_fn = [c for c in ast.walk(cs.node) if isinstance(c, ast.Call) and is_name(c.func, fnp)]
+    arg_ok = bool(calls_fn) and all(c.args and expand(c.args[0], cs.node) == "{k: cap.snapshot() for k, cap in self.build().items()}" for c in calls_fn)
+    chk.ob("R02.4", "interpret.BaseAccumulator._call_with_snapshot:snapshots", arg_ok, cs.where,
            "user callbacks receive {capture: cap.snapshot()} built from the accumulated captures, never the live Capture objects")
     for m in ("trigger", "intercept"):
         fi = repo.func(f"interpret.BaseAccumulator.{m}")
-        chk.ob("R02.4", f"interpret.BaseAccumulator.{m}:through-snapshot", f"self._call_with_snapshot(element, self._{m})" in norm(fi.node), fi.where,
+        chk.ob("R02.4", f"interpret.BaseAccumulator.{m}:through-snapshot", facts_of(fi).mentions(f"self._call_with_snapshot(element, self._{m})"), fi.where,
                f"{m} hands the user function a snapshot")
     sn = repo.func("interpret.Capture.snapshot")
-    ts = norm(sn.node)
-    chk.ob("R02.4", "interpret.Capture.snapshot:copies", "cap.names = list(self.names)" in ts and "cap.values = list(self.values)" in ts and "Capture(self.element)" in ts, sn.where,
+    fsn = facts_of(sn)
+    caps = fsn.bound_to("Capture(self.element)")
+    ok = len(caps) == 1 and fsn.has(f"{caps[0]}.names = list(self.names)", exactly=[]) and fsn.has(f"{caps[0]}.values = list(self.values)", exactly=[]) and fsn.has(f"return {caps[0]}", exactly=[]) \
+        and len(returns_of(sn.node)) == 1
+    chk.ob("R02.4", "interpret.Capture.snapshot:copies", ok, sn.where,
            "a snapshot is a new Capture with copied name and value lists")
     il, tl = repo.func("interpret.Immediate.log"), repo.func("interpret.Total.log")
-    fil, ftl = Facts(il.node), Facts(tl.node)
+    fil, ftl = facts_of(il), facts_of(tl)
     chk.ob("R02.4", "interpret.Immediate.log:overwrites", fil.has("self.getcap(element).set(varname, value)", exactly=[]) and not any(".accum(" in t for t, _, _ in fil.items), il.where,
            "Immediate keeps the latest value per capture")
     chk.ob("R02.4", "interpret.Total.log:accumulates", ftl.has("self.getcap(element).accum(varname, value)", exactly=[]) and not any(".set(" in t for t, _, _ in ftl.items), tl.where,
            "Total keeps every value per capture")
     cset, cacc = repo.func("interpret.Capture.set"), repo.func("interpret.Capture.accum")
-    chk.ob("R02.4", "interpret.Capture.set:replaces", "self.names = [varname]" in norm(cset.node) and "self.values = [value]" in norm(cset.node), cset.where, "Capture.set replaces the stored name and value")
-    chk.ob("R02.4", "interpret.Capture.accum:appends", "self.names.append(varname)" in norm(cacc.node) and "self.values.append(value)" in norm(cacc.node), cacc.where, "Capture.accum appends name and value")
+    chk.ob("R02.4", "interpret.Capture.set:replaces", facts_of(cset).has("self.names = [varname]", exactly=[]) and facts_of(cset).has("self.values = [value]", exactly=[]), cset.where,
+           "Capture.set replaces the stored name and value")
+    chk.ob("R02.4", "interpret.Capture.accum:appends", facts_of(cacc).has("self.names.append(varname)", exactly=[]) and facts_of(cacc).has("self.values.append(value)", exactly=[]), cacc.where,
+           "Capture.accum appends name and value")
     wl, wt = repo.func("interpret.WorkingFrame.log"), repo.func("interpret.WorkingFrame.trigger")
-    chk.ob("R02.4", "interpret.WorkingFrame.log:every-matching-accumulator", "for element, acc in self.accumulators: acc.log(element, self.varname, self.category, value)" in norm(wl.node), wl.where,
+    fwl, fwt = facts_of(wl), facts_of(wt)
+    logs = fwl.find("acc.log(element, self.varname, self.category, value)", exactly=[])
+    chk.ob("R02.4", "interpret.WorkingFrame.log:every-matching-accumulator", len(logs) >= 1 and all(fwl.loops(n) == ["for (element, acc) in self.accumulators"] for n in logs), wl.where,
            "the value is logged into every accumulator registered for this variable (context variables too)")
-    chk.ob("R02.4", "interpret.WorkingFrame.trigger:focus-only", "if element.tags and acc.trigger: acc.trigger(element)" in norm(wt.node), wt.where,
+    trigs = [n for t, c, n in fwt.items if isinstance(n, ast.Call) and t.startswith("acc.trigger(")]
+    good = fwt.find("acc.trigger(element)", exactly=["element.tags", "acc.trigger"])
+    ok = bool(trigs) and all(any(n is g_ for g_ in good) for n in trigs) and all(fwt.loops(n) == ["for (element, acc) in self.accumulators"] for n in trigs)
+    chk.ob("R02.4", "interpret.WorkingFrame.trigger:focus-only", ok, wt.where,
            "only elements carrying a focus tag trigger an event")
     em = repo.func("probe.Probe._emit")
-    te = norm(em.node)
-    chk.ob("R02.4", "probe.Probe._emit:pushes-captured-values", "self._push(data)" in te and "{name: cap.value for name, cap in data.items()}" in te, em.where,
+    fem = facts_of(em)
+    dp = em.node.args.args[1].arg
+    ok = fem.has(f"self._push({dp})", exactly=[]) and fem.has(f"{dp} = {{name: cap.value for name, cap in {dp}.items()}}", exactly=["not self._raw"]) \
+        and len([1 for t, _, n in fem.items if isinstance(n, (ast.Assign, ast.AugAssign)) and t.startswith(f"{dp} ")]) == 1
+    chk.ob("R02.4", "probe.Probe._emit:pushes-captured-values", ok, em.where,
            "the event pushed to the stream is {capture name: captured value} (or the raw captures)")
 
     # ---------------- R02.5
@@ -325,15 +335,14 @@ def run(repo, chk):
                         for k, v in dec:
                             if k.startswith("instrument|") and repr(ix.sym.fields.get("value") if isinstance(ix.sym, Node) else ix.sym) == k.split("|")[1]:
                                 mismatches.add(f"decided on {k.split('|')[1]} / delivered as {k.split('|')[1]}<attr-or-index>")
-    ia_t = norm(repo.func("interpret.Interactor.interact").node)
-    affix = "varname = key.affix_to(varname)" in ia_t
+    affix = facts_of(repo.func("interpret.Interactor.interact")).mentions("key.affix_to(varname)")
     chk.ob("R02.6", "make_interaction:keyed-target-instrument-name", not (mismatches and affix), "ptera/transform.py (make_interaction) / ptera/interpret.py (Interactor.interact)",
            "for attribute/subscript stores the rewriter decides instrumentation on the base name (`self`) while interact looks handlers up under the affixed name "
            "(`self.x`): under selective probing `K.m > self.x` is never instrumented and never fires" if mismatches and affix else
            f"keyed interactions ({n_keyed}) are decided and delivered under the same name")
     si = repo.func(f"transform.{cls}.should_instrument")
-    chk.ob("R02.6", "should_instrument:same-predicate-as-delivery", "check_element(el, varname, evaluated_ann)" in norm(si.node) and
-           "check_element(element, varname, category)" in norm(repo.func("interpret.WorkingFrame.__init__").node), si.where,
+    chk.ob("R02.6", "should_instrument:same-predicate-as-delivery", facts_of(si).mentions("check_element(el, varname, evaluated_ann)") and
+           facts_of(repo.func("interpret.WorkingFrame.__init__")).mentions("check_element(element, varname, category)"), si.where,
            "instrumentation and delivery use the same predicate check_element(element, name, category)")
 
 
